@@ -14,7 +14,9 @@ LEVEL = "proof"
 EXPLANATION = (
     "Bit-level Lean model of FPFormat.quantise on float32 patterns (clip, power-of-two down-scale with IEEE rounding, "
     "integer add + mask, up-scale). Theorems on the rounding core: result is a multiple of 2^k, one of the two "
-    "enclosing multiples, nearest with ties toward zero, idempotent, monotone, sign carried. The check compares the "
+    "enclosing multiples, nearest with ties toward zero, idempotent, monotone, sign carried; end to end on VALUES for "
+    "E<=7 and in-range normal inputs (closed form of the four stages, |result - x| <= half the format spacing, result is "
+    "a format value, no grid point of any binade is closer). The check compares the "
     "implementation's output bit patterns with the model's for every generated input (correspondence, exact) and "
     "evaluates the value-level property with an exact oracle (float32 values and format values are exact in float64)."
 )
